@@ -615,6 +615,9 @@ def gen_merger_case(rng, stats, focus="C04"):
     lines.append("m.it 1 10 iter")
     for _ in range(total + 2):
         lines.append("m.next 10")
+    if mode != "fail" and rng.chance(1, 3):
+        # the same content through mtbl_source_write into a fresh table (bytes compared with the writer model)
+        lines.append("m.write 1 bs=%d ri=%d" % (rng.pick([16, 32, 64, 200]), rng.pick([1, 2, 3]))); stats.bump("merger_source_write")
     iid = 11
     if focus == "C05" or rng.chance(1, 2):
         for _ in range(rng.pick([2, 4])):
@@ -682,6 +685,17 @@ def oracle_merger(res):
                 continue
             vals = [a for a in t[2:] if "=" not in a]
             mergers[t[1]]["srcs"].append([(unhx(vals[j]), unhx(vals[j + 1])) for j in range(0, len(vals), 2)])
+        elif op == "m.write":
+            m = mergers[t[1]]
+            content = merged_content(m["mode"], m["srcs"])
+            strictly = all(content[j][0] < content[j + 1][0] for j in range(len(content) - 1))
+            if real.split(" ")[0] != ("ok" if strictly else "fail"):
+                fails.append(("C04", "mtbl_source_write of a merger whose content %s returned %s" % ("has strictly increasing keys" if strictly else "repeats a key", real[:20]), i))
+            elif strictly:
+                lay = walk_layout(bytes.fromhex(real.split(" ")[1]) if len(real.split(" ")) > 1 and real.split(" ")[1] != "-" else b"", 0)
+                ne = int.from_bytes(bytes.fromhex(real.split(" ")[1])[-512 + 24:-512 + 32], "little") if lay else -1
+                if lay is None or ne != len(content):
+                    fails.append(("C04", "file produced by mtbl_source_write: %s" % ("not a well-formed table" if lay is None else "holds %d entries, merged content has %d" % (ne, len(content))), i))
         elif op == "m.it":
             m = mergers[t[1]]
             content = merged_content(m["mode"], m["srcs"])
